@@ -35,7 +35,7 @@ def _stats_paths(ck, kind, cls, init, overwrite, nchains):
 
     def stub_update(it, func, env, node):
         # modular: the merge routine itself is decided by R5/R6; the drivers only need its length law
-        la, lb = env.get("len_a"), env.get("len_b")
+        la, lb = argp(env, 2), argp(env, 5)  # (avg_a, var_a, len_a, avg_b, var_b, len_b) by position
         from ..ops import binop
 
         return VTuple([VNum("float", T.sym("merged_mean")), VNum("float", T.sym("merged_var")), binop(it, "Add", la, lb, node)])
@@ -217,16 +217,16 @@ def _check_driver(ck, inst, ssite, p, owner, init, ow, nch):
     ups = [c for c in it.calls if c[0].endswith("_update_statistics")]
     ck.check(len(ups) == 2 * nobs, "C13.R4", inst + ":one merge per observable and draw", ssite, "_update_statistics is called %d times, expected %d" % (len(ups), 2 * nobs))
     if len(ups) == 2 * nobs:
-        nc_t = num_term(ups[0][5].get("len_b"))
+        nc_t = num_term(argp(ups[0][5], 5))
         for j, c in enumerate(ups):
-            lb = num_term(c[5].get("len_b"))
-            la = num_term(c[5].get("len_a"))
+            lb = num_term(argp(c[5], 5))
+            la = num_term(argp(c[5], 2))
             ck.check(lb == nc_t and lb is not None, "C13.R4", inst + ":chunk length = chain count #%d" % j, ssite, "a merge uses chunk length %r" % (lb,))
             if j < nobs:
                 ck.check(la == T.ZERO, "C13.R4", inst + ":first merge starts from 0 #%d" % j, ssite, "the first merge of a run starts from length %r" % (la,))
         # all observables of one draw merge against the same accumulated length
         if nobs == 2:
-            la_g = [num_term(c[5].get("len_a")) for c in ups[nobs:]]
+            la_g = [num_term(argp(c[5], 2)) for c in ups[nobs:]]
             ck.check(la_g[0] == la_g[1], "C13.R4", inst + ":same accumulated count for all observables", ssite,
                      "observables of one draw are merged against different sample counts (%r vs %r): the count is advanced inside the observable loop" % (la_g[0], la_g[1]))
     # reported count = chains x draws
@@ -244,8 +244,8 @@ def _check_driver(ck, inst, ssite, p, owner, init, ow, nch):
     if ct is not None:
         at = ct.single_atom()
         if at is not None and isinstance(at, T.App) and at.op == "accum":
-            nc_t = num_term(ups[0][5].get("len_b")) if ups else None
+            nc_t = num_term(argp(ups[0][5], 5)) if ups else None
             okc = (at.args[2] == nc_t and at.args[3] == nc_t)
-        elif ct.is_const() or (ups and num_term(ups[0][5].get("len_b")) is not None and not (num_term(ups[0][5].get("len_b")).syms() & ct.syms())):
+        elif ct.is_const() or (ups and num_term(argp(ups[0][5], 5)) is not None and not (num_term(argp(ups[0][5], 5)).syms() & ct.syms())):
             okc = False  # the reported count does not grow with the draws at all
     ck.check(okc, "C13.R1", inst + ":reported count = chains x draws", ssite, "the reported num_samples %r is not the chain count accumulated once per draw" % (ct,))
